@@ -279,6 +279,7 @@ func raceRun(h e2eHistory, fail func(string)) []e2eObs {
 	for i := 0; i <= len(h.Rot); i++ {
 		ing(i)
 		out = append(out, queryAll(h, fmt.Sprintf("quiet/%d", i)))
+		out = append(out, queryAllBy(h, fmt.Sprintf("regex/%d", i), true))
 		c, _ := racedQueryAll(h, fmt.Sprintf("twostep/%d", i), nil)
 		out = append(out, c)
 		if h.TreeFlush[i] {
@@ -319,6 +320,7 @@ func raceRun(h e2eHistory, fail func(string)) []e2eObs {
 		fail("populate: " + err.Error())
 	}
 	out = append(out, queryAll(h, fmt.Sprintf("quiet/%d", len(h.Rot)+1)))
+	out = append(out, queryAllBy(h, fmt.Sprintf("regex/%d", len(h.Rot)+1), true))
 	return out
 }
 
@@ -330,6 +332,11 @@ func genRaceHistory(r *vhlib.Rng, hi int) e2eHistory {
 	if hi%3 == 2 {
 		h = lateSeriesHistory(r.Fork())
 		h.BlockOnly = false
+	}
+	// more metric names than shards (a metric goes to shard xxhash(name) mod #shards): several metrics share a shard, its
+	// segments and its tags tree directory, and start reporting in different phases
+	for i := range h.Series {
+		h.Series[i].Name += vhlib.Pick(r, []string{"", "", "_a", "_b", "_c"})
 	}
 	nrot := r.Range(1, 3)
 	for i := 0; i < nrot; i++ {
@@ -371,13 +378,49 @@ type shardSim struct {
 	aged              bool
 	closedUnderHolder bool
 	treeThrough       int
+	dirs              [][]*simSeg // tags tree directories of the shard, each with its segments; the last segment of the last directory is the open one
 }
 
-func (s *shardSim) ingest(ph, n int) {
+// a segment of the shard: the metric names it holds (its .mnm / mNamesMap) and the phases ingested into it
+type simSeg struct {
+	names  map[string]bool
+	phases map[int]bool
+}
+
+func newSimSeg() *simSeg { return &simSeg{map[string]bool{}, map[int]bool{}} }
+
+func (s *shardSim) ingest(ph, n int, names []string) {
 	if n > 0 {
 		s.memPhases = append(s.memPhases, ph)
 		s.segHasData = true
+		d := s.dirs[len(s.dirs)-1]
+		open := d[len(d)-1]
+		open.phases[ph] = true
+		for _, nm := range names {
+			open.names[nm] = true
+		}
 	}
+}
+
+// A regular expression on the metric name is matched against the names of ONE segment of a tags tree directory
+// (getRegexMatchedMetricNames(allMSearchReqs[0], ...)): the datapoints of metric `name` accepted in phase ph are at
+// risk when their segment shares its directory with a segment that does not hold that name.
+func (s *shardSim) regexNameAtRisk(name string, ph int) bool {
+	for _, d := range s.dirs {
+		in := false
+		for _, sg := range d {
+			in = in || (sg.phases[ph] && sg.names[name])
+		}
+		if !in {
+			continue
+		}
+		for _, sg := range d {
+			if len(sg.phases) > 0 && !sg.names[name] {
+				return true
+			}
+		}
+	}
+	return false
 }
 func (s *shardSim) rot(kind string, ph int) {
 	if kind == "segment_and_tags_tree" {
@@ -399,20 +442,29 @@ func (s *shardSim) rot(kind string, ph int) {
 	s.segHasData = false
 	if s.aged {
 		s.aged, s.closedUnderHolder = false, false // rotateTagsTree: new directory, no closed segment under it yet
+		s.dirs = append(s.dirs, []*simSeg{newSimSeg()})
 	} else {
 		s.closedUnderHolder = true
+		s.dirs[len(s.dirs)-1] = append(s.dirs[len(s.dirs)-1], newSimSeg())
 	}
 }
 
 // state of shard sh when the queries of `stage` of phase ph are planned
 func simAtPlan(h e2eHistory, ids [][][]int, sh int, stage string, ph int) *shardSim {
-	sim := &shardSim{treeThrough: -1}
+	sim := &shardSim{treeThrough: -1, dirs: [][]*simSeg{{newSimSeg()}}}
+	namesOf := func(l []int) []string {
+		var ns []string
+		for _, i := range l {
+			ns = append(ns, h.Series[h.DPs[i].Series].Name)
+		}
+		return ns
+	}
 	last := ph
 	if last > len(h.Rot) {
 		last = len(h.Rot)
 	}
 	for j := 0; j <= last; j++ {
-		sim.ingest(j, len(ids[j][sh]))
+		sim.ingest(j, len(ids[j][sh]), namesOf(ids[j][sh]))
 		if h.TreeFlush[j] && (j < ph || stage == "flushed" || stage == "race") {
 			sim.treeThrough = j
 		}
@@ -541,6 +593,8 @@ func racePart(cfg vhlib.Config, sum *vhlib.Summary, r *vhlib.Rng) {
 				}
 			case "flushed":
 				sum.Count("race/query_after_periodic_tags_tree_flush")
+			case "regex":
+				sum.Count("race/regex_on_metric_name_at_rest")
 			}
 			// per shard: (1) is the planned in-memory block's number the shard's number again at execution, in another
 			// segment (the fix-up of SearchUnrotatedMetricsBlock compares block numbers only)?  (2) are the series looked up
@@ -548,8 +602,10 @@ func racePart(cfg vhlib.Config, sum *vhlib.Summary, r *vhlib.Rng) {
 			reusedNumber := make([]map[int]bool, nshards)
 			filesOnly := make([]bool, nshards)
 			treeThrough := make([]int, nshards)
+			sims := make([]*shardSim, nshards)
 			for sh := 0; sh < nshards; sh++ {
 				sim := simAtPlan(h, ids, sh, parts[0], ph)
+				sims[sh] = sim
 				filesOnly[sh] = sim.closedUnderHolder
 				if parts[0] == "race" {
 					seg0, k, memPh := sim.seg, sim.cur, sim.memPhases
@@ -592,7 +648,7 @@ func racePart(cfg vhlib.Config, sum *vhlib.Summary, r *vhlib.Rng) {
 						gotIDs[sh] = append(gotIDs[sh], 4000000000)
 					}
 				}
-				notInTreeFiles := filesOnly[sh] && firstPhase[si] > treeThrough[sh] && parts[0] != "flushed"
+				notInTreeFiles := filesOnly[sh] && firstPhase[si] > treeThrough[sh] && parts[0] != "flushed" && parts[0] != "regex"
 				if notInTreeFiles {
 					sum.Count("race/series_newer_than_the_tags_tree_files_of_its_directory")
 				}
@@ -605,6 +661,20 @@ func racePart(cfg vhlib.Config, sum *vhlib.Summary, r *vhlib.Rng) {
 					cls, what = "metrics_e2e_multi_rotation_mismatch", fmt.Sprintf("query at rest after phase %d of rotations %v", ph, h.Rot)
 					if parts[0] == "flushed" {
 						what += " and a periodic tags-tree flush"
+					}
+				case "regex":
+					cls, what = "metrics_regex_name_query_mismatch", fmt.Sprintf("query {__name__=~%q} at rest after phase %d of rotations %v", h.Series[si].Name, ph, h.Rot)
+					explained := len(lost) > 0 && len(extra) == 0
+					for _, p := range lost {
+						for _, d := range h.DPs {
+							if d.Series == si && d.T == p.T && !sims[sh].regexNameAtRisk(h.Series[si].Name, d.Phase) {
+								explained = false
+							}
+						}
+					}
+					if explained {
+						cls = "metrics_regex_name_selector_matches_names_of_one_segment_per_tags_tree_dir"
+						what += "; the missing datapoints are in a segment that shares its tags tree directory with a segment that does not hold this metric name"
 					}
 				case "twostep":
 					cls, what = "metrics_two_step_query_mismatch", fmt.Sprintf("requests built and executed back to back after phase %d of rotations %v", ph, h.Rot)
@@ -689,7 +759,7 @@ func racePart(cfg vhlib.Config, sum *vhlib.Summary, r *vhlib.Rng) {
 					sum.HarnessError(fmt.Sprintf("race: the two-step query differs from ExecuteMetricsQuery at rest (history %d stage %s): %v vs %v", hi, o.Stage, o.Series, q.Series))
 				}
 			}
-			if parts[0] == "quiet" || parts[0] == "flushed" || ph > len(h.Rot) {
+			if parts[0] == "quiet" || parts[0] == "flushed" || parts[0] == "regex" || ph > len(h.Rot) {
 				continue
 			}
 			// model cases, one per shard: ops before the plan, ops between plan and execution, observed datapoint ids
